@@ -99,6 +99,10 @@ template <typename D> static std::string run(const std::vector<std::string> &t) 
 }
 static std::string eval(const std::vector<std::string> &t) {
   if (mode == "zones") return run<zones_t>(t);
+  if (mode == "zones-nr") {   // zones without re-stabilisation after widening
+    crab_domain_params_man::get().set_param("zones.widen_restabilize", "false");
+    return run<zones_t>(t);
+  }
   if (mode == "zones-safe") return run<zones_safe_t>(t);
   if (mode == "sparse") return run<sparse_t>(t);
   if (mode == "pack") return run<pack_t>(t);
